@@ -12,6 +12,7 @@ import (
 func init() {
 	Register(Harness{Prop: "C04", Name: "C04/reclaim", Run: c04Reclaim, Weight: 3})
 	Register(Harness{Prop: "C04", Name: "C04/fixed", Run: c04Fixed})
+	Register(Harness{Prop: "C04", Name: "C04/burst", Run: c04Burst})
 }
 
 // c04Reclaim: producers and consumers that keep up; the last commits / closes are placed at drawn
@@ -226,8 +227,16 @@ func c04Fixed() {
 	total := 0
 	var batches []int
 	var pauses []pause
+	hugeAt := -1
+	if simrt.Chance(1, 12) {
+		hugeAt = 1
+	}
 	for k := simrt.DrawRange(1, 5); k > 0; k-- {
 		n := simrt.DrawRange(1, 4)
+		if k == hugeAt {
+			n = []int{1030, 1300, 4200, 5200}[simrt.Draw(4)] + simrt.Draw(50)
+			simrt.Probe("huge_batch")
+		}
 		batches = append(batches, n)
 		pauses = append(pauses, drawPause())
 		total += n
@@ -276,6 +285,94 @@ func c04Fixed() {
 	}
 	if got := b.Size(); got > max {
 		simrt.Failf("C04.fixed-exceeds-max", "quiescent with FixedBufferCleaner(max=%d,target=%d), cooldown %v: Size()=%d > max after %d values were put", max, target, cool, got, total)
+		return
+	}
+	_ = b.Close()
+	simrt.Quiesce(-1)
+}
+
+// c04Burst: sustained traffic with changes spaced closer than the cooldown (a throttle must still
+// clean once per cooldown; a debounce would never clean while the traffic lasts). One consumer keeps
+// up; the main task samples Size at quiescent instants: whatever was committed at least one cooldown
+// ago must be gone by then ("within a bounded delay", "instead of growing without bound").
+func c04Burst() {
+	cool := []time.Duration{time.Millisecond, 10 * time.Millisecond}[simrt.Draw(2)]
+	gap := cool / time.Duration(simrt.DrawRange(2, 5))
+	rounds := simrt.DrawRange(6, 14)
+	batch := simrt.DrawRange(1, 3)
+	b := newBuffer(nil, cool)
+	c, err := b.NewConsumer()
+	if err != nil {
+		simrt.Failf("setup", "NewConsumer: %v", err)
+		return
+	}
+	// The cleanup goroutine is started by the first call on the Buffer and may run its first cycle before
+	// SetCleanerConfig has been applied, i.e. with the default cooldown: let that first window pass, so
+	// that every window of the burst has the configured length.
+	simrt.Quiesce(-1)
+	type mark struct {
+		at        time.Duration // simulated time read after the Commit returned
+		committed int
+	}
+	var marks []mark
+	put, done := 0, false
+	go func() {
+		defer func() { done = true }()
+		for i := 0; i < rounds; i++ {
+			vals := make([]interface{}, batch)
+			if err := b.Put(bg, vals...); err != nil {
+				simrt.Failf("C04.put", "Put failed: %v", err)
+				return
+			}
+			put += batch
+			for j := 0; j < batch; j++ {
+				if _, err := c.Get(bg); err != nil {
+					simrt.Failf("C04.get", "Get failed: %v", err)
+					return
+				}
+			}
+			if err := c.Commit(); err != nil {
+				simrt.Failf("C04.commit", "Commit failed: %v", err)
+				return
+			}
+			marks = append(marks, mark{simrt.Now(), put})
+			simrt.Logf("committed %d at %v", put, simrt.Now())
+			time.Sleep(gap)
+		}
+	}()
+	for !done && !simrt.Failed() {
+		time.Sleep(gap)
+		simrt.Quiesce(0) // everything due by now has happened, nobody can run
+		if simrt.Failed() {
+			return
+		}
+		// quiescent right now: everything committed at least one cooldown before this instant is gone.
+		// Size() itself yields (the clock may move, the worker may put more), so the commits counted
+		// are those old enough NOW and the number put is read AFTER Size returned: both err on the
+		// safe side.
+		now := simrt.Now()
+		old := 0
+		for _, m := range marks {
+			if m.at+cool <= now {
+				old = m.committed
+			}
+		}
+		if old > 0 {
+			simrt.Probe("burst_sample_with_old_commits")
+		}
+		got := b.Size()
+		if putAfter := put + batch; got > putAfter-old { // a Put may have appended without having returned yet
+			simrt.Failf("C04.not-reclaimed-during-traffic", "cooldown %v, changes every %v: quiescent at simulated time %v with %d values committed at least one cooldown earlier; Size() taken right afterwards is %d although at most %d values had been put (at most %d may remain)",
+				cool, gap, now, old, got, putAfter, putAfter-old)
+			return
+		}
+	}
+	simrt.Quiesce(-1)
+	if simrt.Failed() {
+		return
+	}
+	if got := b.Size(); got != 0 {
+		simrt.Failf("C04.not-reclaimed", "burst over, quiescent, all timers drained: Size()=%d, everything was committed", got)
 		return
 	}
 	_ = b.Close()
